@@ -200,12 +200,15 @@ def build_harness(name="l1", race=False):
 # further statement files of a property (same rules as Properties/<pid>.v: statements, Print Assumptions, Examples);
 # they are compiled, scanned and counted together with the main file
 EXTRA_PROPERTY_FILES = {
-    "C05": ["Refine"],
-    "C06": ["C06own"],
+    "C02": ["RefMod"],
+    "C05": ["Refine", "RefMod"],
+    "C06": ["C06own", "RefMod"],
     "C07": ["Refine"],
+    "C10": ["RefMod"],
     "C12": ["RefComp"],
     "C13": ["RefComp"],
     "C14": ["Refine"],
+    "C16": ["RefMod"],
     "C20": ["C20float"],
 }
 
